@@ -958,6 +958,81 @@ Proof.
   destruct xyz, vel, box; repeat split.
 Qed.
 
+(* ================================================================== propagate: the direction flag *)
+
+Lemma vneg_involutive a : vneg (vneg a) = a.
+Proof. destruct a. unfold vneg. cbn. f_equal; ring. Qed.
+
+Lemma map_vneg_involutive l : map vneg (map vneg l) = l.
+Proof.
+  induction l as [|a l IH]; [reflexivity|]. cbn [map]. rewrite vneg_involutive, IH. reflexivity.
+Qed.
+
+(* the order stored for a frame made by propagate(reverse = r) is the order parameter of the
+   frame's raw content under flag r - whatever flag the shooting point came in with *)
+Lemma propagate_frame_flag {A} (calc : system -> option A) f r xyz vel box :
+  propagate_frame calc f r xyz vel box = (calc (Sys xyz (if r then map vneg vel else vel) box), r).
+Proof. reflexivity. Qed.
+
+(* ... hence recomputing the order from the frame's raw content under the frame's own stored
+   flag (what calculate_order does for a stored phase point) gives the stored order *)
+Lemma propagate_frame_recompute {A} (calc : system -> option A) f r xyz vel box :
+  fst (propagate_frame calc f r xyz vel box) =
+  calculate_order calc (snd (propagate_frame calc f r xyz vel box)) xyz vel box.
+Proof. reflexivity. Qed.
+
+(* frame 0 of either direction carries the order of the shooting point (same convention) *)
+Lemma propagate_frame0_shooting_point {A} (calc : system -> option A) f r xyz vel box :
+  fst (propagate_frame0 calc f r xyz vel box) = calculate_order calc f xyz vel box /\
+  snd (propagate_frame0 calc f r xyz vel box) = r.
+Proof.
+  split; [|reflexivity].
+  unfold propagate_frame0, propagate_frame, propagate_flag, propagate_start, calculate_order. cbn [fst].
+  destruct f, r; cbn [Bool.eqb]; rewrite ?map_vneg_involutive; reflexivity.
+Qed.
+
+(* the reversed point: the same file under the toggled flag, or a file with the physical
+   velocities negated under flag false; a run from it in the opposite direction starts the
+   engine with the same raw velocities *)
+Lemma propagate_start_toggled (f r : bool) (vel : list v3) :
+  propagate_start (negb f) (negb r) vel = propagate_start f r vel.
+Proof. unfold propagate_start. destruct f, r; reflexivity. Qed.
+
+Lemma propagate_start_reversed_file (f : bool) (vel : list v3) :
+  propagate_start false false (if f then vel else map vneg vel) = propagate_start f true vel.
+Proof. unfold propagate_start. destruct f; reflexivity. Qed.
+
+(* on the same raw frame, the backward run stores the sign-reversed (velocity-type) / the same
+   (position-type) order as the forward run *)
+Lemma propagate_backward_velocity i dim f f' xyz vel box :
+  fst (propagate_frame (velocity_calc i dim) f true xyz vel box) =
+  option_map Z.opp (fst (propagate_frame (velocity_calc i dim) f' false xyz vel box)).
+Proof.
+  unfold propagate_frame, propagate_flag. cbn [fst].
+  destruct (calculate_order_flag (velocity_calc i dim) xyz vel box) as [Ht Hf].
+  rewrite Ht, Hf. apply velocity_reverse.
+Qed.
+
+Lemma propagate_backward_distancevel fx i0 i1 per f f' xyz vel box :
+  fst (propagate_frame (distancevel_calc fx i0 i1 per) f true xyz vel box) =
+  option_map (dv_scale (-1) 1) (fst (propagate_frame (distancevel_calc fx i0 i1 per) f' false xyz vel box)).
+Proof.
+  unfold propagate_frame, propagate_flag. cbn [fst].
+  destruct (calculate_order_flag (distancevel_calc fx i0 i1 per) xyz vel box) as [Ht Hf].
+  rewrite Ht, Hf. apply distancevel_reverse.
+Qed.
+
+Lemma propagate_backward_position_type f f' xyz vel box :
+  (forall i dim, fst (propagate_frame (position_calc i dim) f true xyz vel box) =
+                 fst (propagate_frame (position_calc i dim) f' false xyz vel box)) /\
+  (forall i0 i1 per, fst (propagate_frame (distance_calc i0 i1 per) f true xyz vel box) =
+                     fst (propagate_frame (distance_calc i0 i1 per) f' false xyz vel box)) /\
+  (forall i0 i1 i2 i3 per, fst (propagate_frame (dihedral_calc i0 i1 i2 i3 per) f true xyz vel box) =
+                           fst (propagate_frame (dihedral_calc i0 i1 i2 i3 per) f' false xyz vel box)) /\
+  (forall idx per, fst (propagate_frame (puckering_calc idx per) f true xyz vel box) =
+                   fst (propagate_frame (puckering_calc idx per) f' false xyz vel box)).
+Proof. repeat split. Qed.
+
 (* ================================================================== box forms *)
 
 Lemma firstn3_idem (b : list Z) : firstn 3 (firstn 3 b) = firstn 3 b.
